@@ -109,7 +109,7 @@ PROPS = {
     "C14": dict(kind="gen", files=["Sites_Proofs.v", "gen/Sites.v", "P_C14.v", "Registry_Proofs.v"],
                 theorems=[thm("C14_map_range_sites", "Sites_Proofs"), thm("C14_imports_order", "P_C14"),
                           thm("C14_search_order_free", "P_C14"), thm("C14_renames_order_free", "P_C14"),
-                          thm("C14_renames_refuted", "P_C14")],
+                          thm("C14_renames_refuted", "P_C14"), thm("C14_var_quals_order_free", "P_C14"), thm("C14_renames_fixed", "P_C14")],
                 oracle=O.o_c14,
                 known=["rename_order_dependent"]),
     "C15": dict(kind="cli", files=["Cli.v", "Cli_Proofs.v", "Regen_Proofs.v", "P_C15.v"],
